@@ -161,4 +161,33 @@ from_list = Contract(
     loops={'0': LoopSpec(lambda A, E: And(0 <= E['a'].n, E['a'].n <= A['__a'].n, same(E['a'], A['__a'], E['a'].n),
                                           z3.ForAll([j_], Implies(And(E['a'].n <= j_, j_ < A['__a'].n), A['__a'].arr[j_] == 0))))})
 
-CONTRACTS = [neg, add, sub, lshift, rshift, from_list]
+# ---------------------------------------------------------------- __call__ (evaluation by Horner's rule with a reduction per step)
+# Spec: HV(i) is the Horner value after the i highest coefficients at the point xr = x mod p (HV(0) = 0, HV(i+1) = HV(i)*xr + a[n-1-i], revealed per
+# iteration; HV(n) = sum a[j] xr^j).  The result is the reduced representative of HV(n): res == HV(n) - K*p with an explicit ghost witness K
+# (K' = K*xr + (y*xr + c) // p), 0 <= res < p.  Nonlinear (products of ghost and program variables) but equational.
+from vc.engine import MOD
+HV = z3.Function('HV', I, I)
+
+
+def _call_params(vc, P):
+    a = VList(z3.Const('a', ARR), z3.Int('len_a'))
+    return dict(self=vc.alloc(P, VObj('poly', value=vc.alloc(P, a))), x=z3.Int('x'), __a=a)
+
+
+def _call_inv(A, E):
+    return And(E['y'] == E['__H'] - E['__K'] * p, 0 <= E['y'], E['y'] < p, E['__H'] == HV(E['__i0']), E['x'] == MOD(A['x'], p), 0 <= E['x'], E['x'] < p)
+
+
+call = Contract(
+    'mpyc.gfpx.Polynomial.__call__', _call_params,
+    requires=lambda A: And(p > 1, rep(A['__a'])),
+    ensures=lambda A, res, E: And(0 <= res, res < p, res == HV(A['__a'].n) - E['__K'] * p,
+                                  E.P.heap[A.P.heap[A.P.env['self'].id].f['value'].id].n == A['__a'].n),
+    calls={'type': lambda vc, P, args, kw, e: _cls()},
+    loops={'0': LoopSpec(_call_inv, ghost_vars=['__H', '__K', '__y0'], ghost_before=['__H = 0', '__K = 0', '__y0 = 0'],
+                         ghost_begin=['__y0 = y'],
+                         ghost_end=['__H = __H * x + c', '__K = __K * x + (__y0 * x + c) // p'],
+                         reveal_init=[lambda A, E: HV(0) == 0],
+                         reveal=[lambda A, E: HV(E['__i0'] + 1) == HV(E['__i0']) * E['x'] + A['__a'].arr[A['__a'].n - 1 - E['__i0']]])})
+
+CONTRACTS = [neg, add, sub, lshift, rshift, from_list, call]
